@@ -214,15 +214,49 @@ def nodeRep (w : World) (i : Nat) (nd : NodeSt) (holder : Nat) (keys : List (Nat
 /-- `handle_query(GetReplicatedRecord{key})` at a holder -/
 def serve (nd : NodeSt) (key : Nat) : Option Content := nd.store.get key
 
+/-- result class of `store_replicated_in_record` for a fetched `(k, c)` against store `s`: `Ok(())` or an error -/
+def replOk (s : Store) (k : Nat) (c : Content) : Bool :=
+  decide ((Validate.validate (replDelivery k c) s).1 = Validate.Res.ok)
+
+/-- A reply can make the fetcher run `next_keys_to_fetch` twice: in the `PutLocalRecord` handler (`notify_about_new_put`)
+and in the `FetchCompleted` handler (`notify_fetch_early_completed`). The choice witness of the step lists both batches;
+the entries of the batch returned by the `FetchCompleted` handler *after a put* are marked by a non-zero `deadline` field
+(which a choice witness does not otherwise use). -/
+def choicePut (c : List Entry) : List Entry := c.filter (fun e => e.deadline == 0)
+def choiceDone (c : List Entry) : List Entry := c.filter (fun e => e.deadline != 0)
+
 /-- node-level effect of a fetched record `(key, c)` arriving at the requester `i`: `store_replicated_in_record`,
-then the `PutLocalRecord` handler for what it decided to write -/
+then the `PutLocalRecord` handler for what it decided to write, then — when the validation returned Ok and the fetch task
+reports completion (`nt`) — the `FetchCompleted` handler for `(key, record type of the fetched bytes)`:
+`notify_fetch_early_completed`. An error result is only logged: the in-flight entry stays until FETCH_TIMEOUT.
+(The `PutLocalRecord` handler's copy of the store's range into the fetcher comes before the `FetchCompleted` command in
+the code; `notify_fetch_early_completed` neither reads nor writes the range, so it is applied last here.) -/
+def nodeRspWith (nt : Bool) (w : World) (i : Nat) (nd : NodeSt) (key : Nat) (c : Content) (choice : List Entry) :
+    NodeSt × Fetcher.Out × List (Nat × Content) :=
+  let notify := nt && replOk nd.store key c
+  match replWrites nd.store key c with
+  | [] =>
+    if notify then
+      let r := Fetcher.earlyDone (w.kdist i) nd.fetcher key (tyOf c) choice
+      ({ nd with fetcher := r.1 }, r.2, [])
+    else (nd, { illegal := !choice.isEmpty }, [])
+  | (k, c') :: _ =>
+    if notify then
+      let r1 := Fetcher.newPut (w.kdist i) nd.fetcher k (tyOf c') (choicePut choice)
+      let r2 := Fetcher.earlyDone (w.kdist i) r1.1 key (tyOf c) (choiceDone choice)
+      let f := match nd.range with
+        | some r => { r2.1 with range := some r }
+        | none => r2.1
+      ({ nd with store := nd.store.put k c', fetcher := f },
+       { ret := r1.2.ret ++ r2.2.ret, failed := r1.2.failed ++ r2.2.failed, illegal := r1.2.illegal || r2.2.illegal },
+       [(k, c')])
+    else
+      let (nd, o) := putLocal w i nd k c' choice
+      (nd, o, [(k, c')])
+
 def nodeRsp (w : World) (i : Nat) (nd : NodeSt) (key : Nat) (c : Content) (choice : List Entry) :
     NodeSt × Fetcher.Out × List (Nat × Content) :=
-  match replWrites nd.store key c with
-  | [] => (nd, { illegal := !choice.isEmpty }, [])
-  | (k, c') :: _ =>
-    let (nd, o) := putLocal w i nd k c' choice
-    (nd, o, [(k, c')])
+  nodeRspWith fetchTaskNotifiesCompletion w i nd key c choice
 
 /-- the guard of the `Cmd::Replicate` arm of `handle_req_resp_events`, as read from the source: with `chk` the list is
 handed to `add_keys_to_replication_fetcher` only `if holder.as_peer_id() == Some(peer)` (`eq`; `!=` otherwise), `peer`
